@@ -94,6 +94,11 @@ def run(tier, argv):
                 ev = e
                 break
         mism.append({"bytes": ev["bytes"], "trailing": ev["trailing"], "drain": ev.get("drain", False), "want": m["want"], "got": {"ok": ev["ok"]}, "what": "verdict"})
+    # 4. differential amplification: texts on which the frozen copy and the current tree differ, judged by TraceJsonText
+    from checks import semcommon
+    for b in semcommon.lex_diff_tier(work, rep, hbin, PROP, 200000 if quick else 20000000):
+        mism.append({"bytes": b["bytes"], "trailing": b["trailing"], "want": b["what"], "got": {"ok": None}, "what": "verdict"})
+    tests += rep.cov.get("evaluations", 0)
     rep.cov["evaluations"] = tests
     rep.cov["distinct_nontrivial"] = tests
     rep.cov["rule"] = ("every transition of the TLC-exported RFC 8259 automaton (all 256 bytes, nesting <= %d) x every suffix of a "
